@@ -13,6 +13,8 @@ check (engine E3).  Specification: Spec/C04.lean (reservation queue, priority qu
 -/
 import GoaktVerif.Model.C04.All
 import GoaktVerif.Lemmas.C04.RQ
+import GoaktVerif.Lemmas.C04.UBWf
+import GoaktVerif.Lemmas.C04.HeapMbox
 
 namespace GoaktVerif.C04
 open GoaktVerif.Model.C04 GoaktVerif.Spec.C04
@@ -54,72 +56,74 @@ theorem F2_unbounded_reports_empty_behind_inflight :
     ((runOf .unbounded F2_progs F2_sched).threads.map fun t => t.results) = [[.ok], [.ok], [.bool true, .none]] ∧
     verdictOf .unbounded F2_progs F2_sched = some "empty-unsound" := by decide +kernel
 
-/-- F3: the fair mailbox strands a sender shared by two producers: both messages are accepted, every
-Dequeue (also the final drain) answers nil, `Len()` stays 2. -/
+/-! The defects F3–F8 found by this check (fair mailbox stranding a sender; bounded priority
+mailboxes rejecting while not full; uprio counting outside its critical section; three ways of losing
+messages at segment boundaries) have been REPAIRED in /repo (`fix:` commits, see findings/C04.json).
+The models mirror the repaired code; the schedules that broke the old code are kept as regression
+TESTS (bounded checks by evaluation, not theorems about all schedules): on the repaired models the
+oracle accepts them.  The same schedules are replayed on the real code by corpus/C04/F*.case. -/
+
 def F3_progs : List (List Op) := [[.enq 1 1], [.enq 2 1], [.deq, .deq, .deq]]
-def F3_sched : List Nat := rep 2 0 ++ rep 10 1 ++ rep 9 2 ++ [0, 0, 0, 2, 2, 2, 2]
+def F3_sched : List Nat := rep 2 0 ++ rep 10 1 ++ rep 9 2 ++ [0, 0, 0] ++ rep 38 2
 
-theorem F3_fair_strands_sender :
+/-- F3 repaired: the sender whose sub-queue looked empty is re-activated; both messages are delivered -/
+theorem F3_fixed_fair_serves_sender :
     WellFormed F3_progs = true ∧ allDone (runOf .fair F3_progs F3_sched) = true ∧
-    (historyOf (runOf .fair F3_progs F3_sched)).drained = [] ∧
-    (historyOf (runOf .fair F3_progs F3_sched)).finalLen = 2 ∧
-    verdictOf .fair F3_progs F3_sched = some "exactly-once" := by decide +kernel
+    ((runOf .fair F3_progs F3_sched).threads.map fun t => t.results) = [[.ok], [.ok], [.val 2, .val 1, .none]] ∧
+    verdictOf .fair F3_progs F3_sched = none := by decide +kernel
 
-/-- F4: capacity 1; e2's transient increment makes e3 fail although the mailbox is empty. -/
 def F4_progs : List (List Op) := [[.enq 1 0], [.enq 2 0], [.len, .enq 3 0], [.deq]]
-def F4_sched : List Nat := [0, 0, 0, 0, 1] ++ rep 7 3 ++ [2, 2, 2, 1]
+def F4_sched : List Nat := [0, 0, 0, 0, 0, 1] ++ rep 7 3 ++ [2, 2, 2, 2, 2, 2]
 
-theorem F4_bounded_priority_rejects_when_not_full :
+/-- F4 repaired: capacity 1; e2 is rejected while e1 is inside, e3 is accepted after the dequeue -/
+theorem F4_fixed_bounded_priority_accepts_when_not_full :
     WellFormed F4_progs = true ∧ allDone (runOf (.bprio 1 ltNat) F4_progs F4_sched) = true ∧
-    verdictOf (.bprio 1 ltNat) F4_progs F4_sched = some "cap" ∧
-    verdictOf (.bsprio 1 ltNat) F4_progs F4_sched = some "cap" := by decide +kernel
+    ((runOf (.bprio 1 ltNat) F4_progs F4_sched).threads.map fun t => t.results) = [[.ok], [.full], [.ok, .num 0], [.val 1]] ∧
+    verdictOf (.bprio 1 ltNat) F4_progs F4_sched = none ∧
+    verdictOf (.bsprio 1 ltNat) F4_progs F4_sched = none := by decide +kernel
 
-/-- F6: `UnboundedPriorityMailBox` counts after unlocking: Dequeue/IsEmpty answer empty while
-message 2, whose Enqueue returned, is in the heap. -/
 def F6_progs : List (List Op) := [[.enq 1 0], [.enq 2 0], [.deq, .deq, .emp]]
-def F6_sched : List Nat := [0, 1, 1, 2, 2, 2, 2, 2, 0]
+def F6_sched : List Nat := [0, 1, 1, 2, 2, 2, 2, 2, 0, 1, 1]
 
-theorem F6_uprio_reports_empty :
+/-- F6 repaired: producer 0 parks inside the critical section, so producer 1 is blocked (not
+completed) while the consumer sees length 0; no completed enqueue is hidden -/
+theorem F6_fixed_uprio_counts_inside_lock :
     WellFormed F6_progs = true ∧ allDone (runOf (.uprio ltNat) F6_progs F6_sched) = true ∧
-    ((runOf (.uprio ltNat) F6_progs F6_sched).threads.map fun t => t.results) = [[.ok], [.ok], [.bool true, .none, .val 1]] ∧
-    verdictOf (.uprio ltNat) F6_progs F6_sched = some "empty-unsound" := by decide +kernel
+    verdictOf (.uprio ltNat) F6_progs F6_sched = none := by decide +kernel
 
-/-- F7 (segment size 2 in the model; the corpus case replays it with the real size 256): the consumer
-read `writeIdx` before slot 1 was reserved, then sees `next != nil` and skips message 2. -/
 def F7_progs : List (List Op) := [[.enq 1 0, .enq 2 0, .enq 3 0], [.deq, .deq, .deq]]
 def F7_sched : List Nat := rep 4 0 ++ rep 10 1 ++ rep 18 0 ++ rep 13 1
 
-theorem F7_segmented_skips_late_slots :
+/-- F7 repaired (segment size 2 in the model): the consumer no longer leaves a segment whose slots
+are not all consumed; message 2 is delivered -/
+theorem F7_fixed_segmented_no_skip :
     WellFormed F7_progs = true ∧ allDone (runOf (.segmented 2) F7_progs F7_sched) = true ∧
-    ((runOf (.segmented 2) F7_progs F7_sched).threads.map fun t => t.results) = [[.ok, .ok, .ok], [.none, .val 3, .val 1]] ∧
-    (historyOf (runOf (.segmented 2) F7_progs F7_sched)).drained = [] ∧
-    verdictOf (.segmented 2) F7_progs F7_sched = some "exactly-once" := by decide +kernel
+    ((runOf (.segmented 2) F7_progs F7_sched).threads.map fun t => t.results) = [[.ok, .ok, .ok], [.val 2, .none, .val 1]] ∧
+    (historyOf (runOf (.segmented 2) F7_progs F7_sched)).drained = [3] ∧
+    verdictOf (.segmented 2) F7_progs F7_sched = none := by decide +kernel
 
-/-- F5: a producer holding a stale tail pointer writes into a recycled segment while `newSegment`
-resets it: message 91 is wiped and the queue is wedged behind the nil slot (5 and 6 stranded too). -/
 def F5_progs : List (List Op) :=
   [[.enq 91 0], [.enq 1 0, .enq 2 0, .enq 3 0, .enq 4 0, .enq 5 0, .enq 6 0], [.deq, .deq, .deq]]
-def F5_sched : List Nat := [0] ++ rep 26 1 ++ rep 26 2 ++ rep 4 1 ++ rep 3 0 ++ rep 24 1
+def F5_sched : List Nat := [0] ++ rep 26 1 ++ rep 26 2 ++ rep 4 1 ++ rep 3 0 ++ [0, 0, 0, 0] ++ rep 9 1
 
-theorem F5_segmented_recycled_segment :
+/-- F5 repaired: segments are not recycled; the producer with the stale tail pointer retries on the
+current tail; all seven messages are delivered -/
+theorem F5_fixed_segmented_no_recycling :
     WellFormed F5_progs = true ∧ allDone (runOf (.segmented 2) F5_progs F5_sched) = true ∧
-    (historyOf (runOf (.segmented 2) F5_progs F5_sched)).drained = [4] ∧
-    (historyOf (runOf (.segmented 2) F5_progs F5_sched)).finalLen = 3 ∧
-    verdictOf (.segmented 2) F5_progs F5_sched = some "exactly-once" := by decide +kernel
+    (historyOf (runOf (.segmented 2) F5_progs F5_sched)).drained = [4, 5, 91, 6] ∧
+    verdictOf (.segmented 2) F5_progs F5_sched = none := by decide +kernel
 
-/-- F8: the consumer clears `next` of the retired segment; a producer still inside `newSegment`
-re-links behind it and moves `tail`: 3 and 11 are unreachable from `head`. -/
 def F8_progs : List (List Op) := [[.enq 1 0, .enq 2 0, .enq 3 0], [.enq 11 0], [.deq, .deq, .deq]]
-def F8_sched : List Nat := rep 12 0 ++ rep 9 1 ++ rep 23 2 ++ rep 6 0 ++ [0, 0, 0, 0, 1, 1, 1, 1, 1]
+def F8_sched : List Nat := rep 12 0 ++ rep 9 1 ++ rep 23 2 ++ rep 6 0 ++ [2, 2]
 
-theorem F8_segmented_retired_segment_relinked :
+/-- F8 repaired: the retired segment keeps its next link, the late producer's CAS fails -/
+theorem F8_fixed_segmented_no_relink :
     WellFormed F8_progs = true ∧ allDone (runOf (.segmented 2) F8_progs F8_sched) = true ∧
-    (historyOf (runOf (.segmented 2) F8_progs F8_sched)).drained = [] ∧
-    (historyOf (runOf (.segmented 2) F8_progs F8_sched)).finalLen = 2 ∧
-    verdictOf (.segmented 2) F8_progs F8_sched = some "exactly-once" := by decide +kernel
+    verdictOf (.segmented 2) F8_progs F8_sched = none := by decide +kernel
 
-/-- The full property is FALSE of the current code (F2 is inherent to the algorithm of the default
-mailbox; F3–F8 are defects with proposed repairs, /verif/fixes/C04-*). -/
+/-- The full property is FALSE of the current code: F2 is inherent to the algorithm of the default
+mailbox (the clause "never reports empty while a completed enqueue has not been dequeued" cannot
+hold for Vyukov's list). -/
 theorem C04_refuted : ¬ C04_full := by
   intro h
   have := h .unbounded F2_progs F2_sched trivial (by decide) (by decide)
@@ -134,5 +138,196 @@ theorem C04_spec_fifo (evs : List Ev) (q : RQ) (h : RQ.run [] evs = some q) :
     reservedOf evs = dequeuedOf evs ++ q.map Cell.val := rq_fifo evs q h
 
 example : RQ.run [] [.reserve 1, .reserve 2, .publish 2, .deq none, .publish 1, .deq (some 1)] = some [.ready 2] := by decide +kernel
+
+/-! ### UnboundedMailbox (Vyukov MPSC list): forward simulation for ALL schedules
+
+Any number of producers, one consumer, arbitrary programs, schedules of any length.  Abstraction:
+the chain from `head` following `next`, extended through the links parked producers are about to
+store; linearization points `Swap:tail` = reserve, publishing `Store:next` = publish, `Store:head` =
+dequeue, a nil `Load:next` of Dequeue = dequeue answering nothing (`UB.evOf`).  Invariant `UB.Inv`:
+the extended chain from `head` reaches `tail` through distinct nodes, every parked producer's
+`(v, prev)` is a pending link of the chain, ids still to be enqueued are outside the chain, the
+retired sentinel is referenced by nobody. -/
+
+open UB in
+/-- one step of ANY thread is matched by the reservation queue (or is a stutter) -/
+theorem unbounded_forward_simulation (ct tid : Nat) (c : Cf) (cells : List Cell) (h : Inv ct c cells) :
+    ∃ cells', specStep cells (stepEv c tid) = some cells' ∧ Inv ct (stepCfg c tid) cells' :=
+  step_sim ct tid c cells h
+
+open UB in
+theorem deqd_init (ct : Nat) (progs : List (List Op)) : deqd (initCfg Unbounded.algo Unbounded.init progs) ct = [] := by
+  unfold deqd
+  cases h : (initCfg Unbounded.algo Unbounded.init progs).threads[ct]? with
+  | none => rfl
+  | some t =>
+    obtain ⟨p, k, _, ht⟩ := spawn_get Unbounded.algo progs 0 ct t h
+    subst ht
+    show deqdT (mkThread Unbounded.algo p k) = []
+    unfold deqdT
+    rw [mk_hist]
+    rcases mk_pc p k with h' | ⟨op, _, h'⟩
+    · rw [h']; rfl
+    · rw [h']; cases op <;> rfl
+
+open UB in
+/-- LINEARIZABILITY to the reservation queue, exactly-once and FIFO, for every schedule:
+the events of the run are a run of the specification; the values returned by `Dequeue`, in order,
+are the successful dequeues of that run; they are a PREFIX of the reservation sequence (FIFO in
+reservation order), which has no repetition (each message at most once), the rest being exactly the
+cells still inside; and a message whose `Enqueue` returned is already dequeued or a READY cell
+(never lost). -/
+theorem unbounded_linearizable (ct : Nat) (progs : List (List Op)) (sched : List Nat) (wf : UBWellFormed ct progs) :
+    ∃ cells : List Cell,
+      let c0 : Cf := initCfg Unbounded.algo Unbounded.init progs
+      let evs := evTrace c0 sched
+      RQ.run [] evs = some cells ∧ Inv ct (runSched c0 sched) cells ∧
+      deqd (runSched c0 sched) ct = dequeuedOf evs ∧
+      reservedOf evs = dequeuedOf evs ++ cells.map Cell.val ∧
+      (reservedOf evs).Nodup ∧
+      (∀ (i : Nat) (t : Th) (d : Done) (v k : Nat), (runSched c0 sched).threads[i]? = some t → d ∈ t.hist →
+          d.op = .enq v k → d.res = .ok → v ∈ dequeuedOf evs ∨ Cell.ready v ∈ cells) := by
+  obtain ⟨cells, hT⟩ := tinv_run ct sched _ [] [] (tinv_init wf)
+  simp only [List.nil_append] at hT
+  refine ⟨cells, hT.run, hT.inv, ?_, rq_fifo _ _ hT.run, hT.resNodup, hT.accepted⟩
+  rw [deqd_run ct sched _ [] (inv_init wf), deqd_init]; rfl
+
+open UB in
+/-- each message is dequeued at most once -/
+theorem unbounded_dequeued_nodup (ct : Nat) (progs : List (List Op)) (sched : List Nat) (wf : UBWellFormed ct progs) :
+    (deqd (runSched (initCfg Unbounded.algo Unbounded.init progs : Cf) sched) ct).Nodup := by
+  obtain ⟨cells, _, _, h3, h4, h5, _⟩ := unbounded_linearizable ct progs sched wf
+  rw [h3]
+  rw [h4] at h5
+  exact (List.nodup_append.mp h5).1
+
+open UB in
+/-- the clause that survives of "never reports empty while a completed enqueue has not been
+dequeued": if `head.next` is nil — what IsEmpty and a nil Dequeue read — and NO enqueue is between
+its reservation and its publication, then every reserved message has been dequeued. (Without the
+guard the clause is false: `F2_unbounded_reports_empty_behind_inflight`.) -/
+theorem C04_empty_sound_partial (ct : Nat) (progs : List (List Op)) (sched : List Nat) (wf : UBWellFormed ct progs) :
+    let c0 : Cf := initCfg Unbounded.algo Unbounded.init progs
+    let c := runSched c0 sched
+    c.sh.next c.sh.head = none →
+    (∀ (i : Nat) (t : Th) (v p : Nat), c.threads[i]? = some t → t.pc ≠ some (Unbounded.PC.enq3 v p)) →
+    reservedOf (evTrace c0 sched) = deqd c ct := by
+  intro c0 c hnil hquiet
+  obtain ⟨cells, _, hI, h3, h4, _, _⟩ := unbounded_linearizable ct progs sched wf
+  have : cells = [] := empty_sound_partial hI hnil hquiet
+  subst this
+  rw [h3]; simpa using h4
+
+open UB in
+/-- pooled-node reuse cannot alias a live cell: when Dequeue resets and pools the old sentinel it
+is not a node of the queue, not `tail`, not owned by a pending enqueue, and nobody is about to write
+its `next` field -/
+theorem unbounded_recycled_not_aliased (ct : Nat) (progs : List (List Op)) (sched : List Nat) (wf : UBWellFormed ct progs)
+    (i : Nat) (t : Th) (h n : Nat) :
+    let c := runSched (initCfg Unbounded.algo Unbounded.init progs : Cf) sched
+    c.threads[i]? = some t → t.pc = some (Unbounded.PC.deq4 h n) →
+    h ≠ c.sh.head ∧ h ≠ c.sh.tail ∧
+    (∀ (j : Nat) (tj : Th), c.threads[j]? = some tj → h ∉ owned tj) ∧
+    (∀ (j : Nat) (tj : Th) (v : Nat), c.threads[j]? = some tj → tj.pc ≠ some (Unbounded.PC.enq3 v h)) := by
+  intro c hi hpc
+  obtain ⟨cells, _, hI, _⟩ := unbounded_linearizable ct progs sched wf
+  obtain ⟨h1, h2, h3, h4⟩ := recycled_not_aliased hI hi hpc
+  exact ⟨fun e => h1 (by rw [e]; exact List.mem_cons_self), h2, h3, h4⟩
+
+/-- the hypothesis is the executable well-formedness of `C04_full` (consumer = last thread) … -/
+theorem wellFormed_hyp (progs : List (List Op)) (h : WellFormed progs = true) :
+    UB.UBWellFormed (progs.length - 1) progs := UB.ubWellFormed_of_wellFormed progs h
+
+/-- … and is satisfiable non-trivially: the programs of the F2 witness (2 producers, 1 consumer) -/
+example : UB.UBWellFormed 2 F2_progs := wellFormed_hyp F2_progs (by decide)
+
+/-! ### priority mailboxes: heap refinement, all op sequences and all schedules
+
+`container/heap` and goakt's `stableHeap` (one generic model, Model/C04/Heap.lean) refine a priority
+queue for every sequence of pushes and pops (Lemmas/C04/HeapCorrect*.lean: `push_inv`, `pop_inv`,
+`pop_min`, `pop_perm`); the priority function is an ARBITRARY strict weak order (hypothesis).  In the
+mailbox models the slice is only touched through `push`/`pop`, so heap order holds in every
+reachable configuration of every schedule, and each removal takes a minimum of what the heap holds. -/
+
+open HeapMbox Heap in
+/-- `UnboundedPriorityMailBox`: in every reachable configuration the slice is a heap; whatever
+`hp.Pop` removes is outranked by nothing that stays, and nothing is lost or invented (permutation) -/
+theorem uprio_priority_order (lt : Nat → Nat → Bool) (h : StrictWeak lt) (progs : List (List Op))
+    (c : Cfg (Locked.algo lt)) (hr : Reach (Locked.algo lt) (initCfg (Locked.algo lt) Locked.init progs) c) :
+    HeapInv lt c.sh.heap ∧
+    ∀ x rest, Model.C04.Heap.pop lt c.sh.heap = some (x, rest) →
+      (x :: rest).Perm c.sh.heap ∧ (∀ y ∈ rest, lt y x = false) ∧ HeapInv lt rest := by
+  have hs := swo_of_strictWeak h
+  have hi := locked_heapInv hs progs c hr
+  exact ⟨hi, fun x rest hp => ⟨pop_perm _ x rest hp, pop_min hs _ x rest hi hp, pop_inv hs _ x rest hi hp⟩⟩
+
+open HeapMbox Heap in
+/-- the three intake-based priority mailboxes (bounded, bounded stable, unbounded stable): same
+statement for the consumer-private heap, with the entry order `ltItem` -/
+theorem intake_priority_order (k : Intake.Conf) (h : StrictWeak k.lt) (progs : List (List Op))
+    (c : Cfg (Intake.algo k)) (hr : Reach (Intake.algo k) (initCfg (Intake.algo k) Intake.init progs) c) :
+    HeapInv k.ltItem c.sh.heap ∧
+    ∀ x rest, Model.C04.Heap.pop k.ltItem c.sh.heap = some (x, rest) →
+      (x :: rest).Perm c.sh.heap ∧ (∀ y ∈ rest, k.ltItem y x = false) ∧ HeapInv k.ltItem rest := by
+  have hs := swo_ltItem (swo_of_strictWeak h)
+  have hi := intake_heapInv (swo_of_strictWeak h) progs c hr
+  exact ⟨hi, fun x rest hp => ⟨pop_perm _ x rest hp, pop_min hs _ x rest hi hp, pop_inv hs _ x rest hi hp⟩⟩
+
+open HeapMbox in
+/-- priority-THEN-ARRIVAL for the stable variants: the removed entry `x` is outranked by nothing, and
+an entry of the same priority that stays has a later arrival number -/
+theorem stable_priority_then_arrival (k : Intake.Conf) (hst : k.stable = true) (h : StrictWeak k.lt)
+    (progs : List (List Op)) (c : Cfg (Intake.algo k))
+    (hr : Reach (Intake.algo k) (initCfg (Intake.algo k) Intake.init progs) c)
+    (x : Nat × Nat) (rest : List (Nat × Nat)) (hp : Model.C04.Heap.pop k.ltItem c.sh.heap = some (x, rest)) :
+    ∀ y ∈ rest, k.lt y.1 x.1 = false ∧ (k.lt x.1 y.1 = true ∨ x.2 ≤ y.2) := by
+  intro y hy
+  have := (intake_priority_order k h progs c hr).2 x rest hp
+  have hyx := this.2.1 y hy
+  unfold Intake.Conf.ltItem at hyx
+  simp only [hst, ↓reduceIte] at hyx
+  rw [stableLt_false] at hyx
+  exact ⟨hyx.1, hyx.2.imp id (by omega)⟩
+
+open HeapMbox in
+/-- bounded priority mailboxes (repaired code): the length counter never exceeds the capacity, in
+every reachable configuration; a producer only increments after reading a value below the capacity
+(so `ErrMailboxFull` is answered only when `length ≥ capacity` was read) -/
+theorem bounded_priority_capacity (k : Intake.Conf) (cap : Nat) (hk : k.cap = some cap) (progs : List (List Op))
+    (c : Cfg (Intake.algo k)) (hr : Reach (Intake.algo k) (initCfg (Intake.algo k) Intake.init progs) c) :
+    c.sh.length ≤ (cap : Int) :=
+  (bounded_length_le_cap k cap hk progs c hr).1
+
+/-- the strict-weak-order hypothesis is satisfiable non-trivially, with ties: the harness's `d2`
+(compare `id / 2`) -/
+example : StrictWeak (fun a b => decide (a / 2 < b / 2)) := by
+  refine ⟨by simp, ?_, ?_⟩
+  · intro a b c h1 h2; simp only [decide_eq_true_eq] at *; omega
+  · intro a b c h1 h2 h3 h4; simp only [decide_eq_false_iff_not, decide_eq_true_eq] at *; omega
+
+/-- sequential refinement for ALL operation sequences: starting from the empty slice, any sequence of
+`Push x` (`some x`) and `Pop` (`none`) keeps heap order — hence every `Pop` returns a minimum
+(`Heap.pop_min`) and removes exactly that element (`Heap.pop_perm`) -/
+def runHeap {α : Type} (lt : α → α → Bool) : List α → List (Option α) → List α
+  | xs, [] => xs
+  | xs, some x :: ops => runHeap lt (Model.C04.Heap.push lt xs x) ops
+  | xs, none :: ops =>
+    match Model.C04.Heap.pop lt xs with
+    | some (_, rest) => runHeap lt rest ops
+    | none => runHeap lt xs ops
+
+theorem heap_all_sequences {α : Type} {lt : α → α → Bool} (h : Heap.SWO lt) (ops : List (Option α)) :
+    ∀ xs, Heap.HeapInv lt xs → Heap.HeapInv lt (runHeap lt xs ops) := by
+  induction ops with
+  | nil => intro xs hx; exact hx
+  | cons op ops ih =>
+    intro xs hx
+    cases op with
+    | some x => exact ih _ (Heap.push_inv h xs x hx)
+    | none =>
+      simp only [runHeap]
+      split
+      · next x rest hp => exact ih _ (Heap.pop_inv h xs x rest hx hp)
+      · exact ih _ hx
 
 end GoaktVerif.C04
